@@ -38,7 +38,8 @@ def classify(it, state, v, p, pytype):
     every value of the declared type (None allowed to become the empty value
     of that type)."""
     raw = p.args[0] if isinstance(p, Sym) and p.op == 'typed' else p
-    if v is p or v is raw:
+    if v is p or v is raw or (isinstance(p, T.Ref) and
+                              isinstance(v, T.Ref) and v.id == p.id):
         return True, 'the argument'
     if pytype == 'bool' and isinstance(v, Sym) and (
             (v.op == 'ne' and (v.args[0] is p or v.args[0] is raw) and
@@ -79,12 +80,17 @@ def passthrough(ctx, ci, ptypes, policy=None):
     a = init.node.args
     names = [x.arg for x in (a.posonlyargs + a.args)[1:]]
     ps = []
-    for nm in names:
-        pt = ptypes.get(nm)
-        ps.append(Sym('typed', Sym('param', nm), (pt,), None)
-                  if pt and pt != 'inst' else Sym('param', nm))
     it = ctx.interp(policy)
     st = ctx.new_state()
+    for nm in names:
+        pt = ptypes.get(nm)
+        if pt and pt.startswith('inst:'):
+            # a caller-owned object of a class of the package: its own
+            # __bool__ / __len__ / __eq__ decide what `x or default` does
+            ps.append(ctx.symbolic_instance(it, st, prog.cls(pt[5:])))
+        else:
+            ps.append(Sym('typed', Sym('param', nm), (pt,), None)
+                      if pt and pt != 'inst' else Sym('param', nm))
     ref = it.alloc(st, I.InstObj(ci, {}))
     outs = it.run_function(init, [ref] + ps, {}, st)
     done = [o for o in outs if o.kind != 'raise']
